@@ -473,6 +473,10 @@ fn main() {
             (vec![own, f7], "n2:own+foreign"),
             (vec![f7, own2], "n2:foreign+own"),
             (vec![frm, own2], "n2:foreign-dummy+own"),
+            // a foreign proof in a LATER slot whose statement is wrapper-compatible with the own proof in slot 0: only the
+            // recursive verification of that slot can reject it (catches "verifies slot 0 only" wiring bugs)
+            (vec![own, frm], "n2:own+foreign-dummy(compatible)"),
+            (vec![own2, frm], "n2:own2+foreign-dummy(compatible)"),
             (vec![f7, f7], "n2:foreign+foreign"),
         ] {
             jobs.push((oi, slots, tag.to_string(), vec![pre(&mut r), pre(&mut r)]));
